@@ -33,8 +33,11 @@ Inductive st := OK | Suspended | Dead.
 Inductive rk := Res | Cls.
 Inductive msg := MVal (v : nat) | MErr (v : nat) | MTerm.
 
+(* [hctx] = the locals of the running [end] frame while it runs the pending __close handlers
+   (repaired order): the detached caller and the message that will be sent to it *)
 Record thread := mkTh {
-  status : st; caller : option nat; mux : option nat; closed : bool; closeErr : bool }.
+  status : st; caller : option nat; mux : option nat; closed : bool; closeErr : bool;
+  hctx : option (nat * msg) }.
 
 Inductive pcT :=
 | NotCreated | S0 | Lua | MainDone | Panicked
@@ -48,20 +51,22 @@ Inductive pcT :=
 (* coroutine operations started by a __close handler running inside end (E5) *)
 | X1 (t c : nat) (m : msg) | X2 (t c : nat) (m : msg) | X3 (t c : nat) (m : msg) | XY1 (c : nat) (m : msg).
 
-Record cfg := mkCfg { rel_after_send : bool; e5_coops : bool }.
-(* the code as it stands (after fix eafa506: ReleaseBytes precedes the send; a __close handler run by
-   end may still perform coroutine operations) *)
-Definition current : cfg := mkCfg false true.
-(* the order before eafa506: ReleaseBytes after the hand-off (kept as a regression witness) *)
+Record cfg := mkCfg { rel_after_send : bool; handlers_locked : bool }.
+(* the code as it stands: ReleaseBytes precedes the send (fix eafa506); end runs the pending __close
+   handlers FIRST, as an ordinary running thread with its caller detached, before taking any mutex,
+   closing the channel or becoming dead; a termination raised by a handler is forwarded *)
+Definition current : cfg := mkCfg false false.
+(* regression variants: the order before eafa506 (ReleaseBytes after the hand-off, handlers inside the
+   locked section), and the code before the handler repair (handlers run at E5 holding both mutexes) *)
 Definition old_order : cfg := mkCfg true true.
-(* additionally: handlers run by end perform no coroutine operation *)
-Definition repaired : cfg := mkCfg false false.
+Definition old_handlers : cfg := mkCfg false true.
 
 Record state := mkState { n : nat; th : nat -> thread; pc : nat -> pcT }.
 
 Inductive label :=
 | LCreate | LResume (t v : nat) | LClose (t : nat) | LYield (v : nat) | LFinish (m : msg) | LStatus (t : nat)
-| LHResume (t : nat) | LHYield          (* decided by a __close handler inside end *)
+| LHResume (t : nat) | LHYield          (* old code: decided by a __close handler inside the locked section of end *)
+| LHDone (m : msg)                      (* repaired code: the handler phase of end is over; m will be sent *)
 | LStep (code : nat)                    (* the atomic action numbered [code] of the goroutine's pc *)
 | LRdv.                                 (* rendezvous, named by the sender *)
 
@@ -70,18 +75,24 @@ Record action := mkAct { who : nat; lab : label }.
 Definition upd {A} (f : nat -> A) (i : nat) (v : A) : nat -> A :=
   fun j => if Nat.eqb j i then v else f j.
 
-Definition th0 : thread := mkTh OK None None false false.
-Definition thNew : thread := mkTh Suspended None None false false.
+Definition th0 : thread := mkTh OK None None false false None.
+Definition thNew : thread := mkTh Suspended None None false false None.
 Definition init : state := mkState 1 (fun _ => th0) (upd (fun _ => NotCreated) 0 Lua).
 
 Definition set_mux (x : thread) (m : option nat) : thread :=
-  mkTh (status x) (caller x) m (closed x) (closeErr x).
+  mkTh (status x) (caller x) m (closed x) (closeErr x) (hctx x).
 Definition set_sc (x : thread) (s : st) (c : option nat) : thread :=
-  mkTh s c (mux x) (closed x) (closeErr x).
+  mkTh s c (mux x) (closed x) (closeErr x) (hctx x).
 Definition set_closed (x : thread) : thread :=
-  mkTh (status x) (caller x) (mux x) true (closeErr x).
+  mkTh (status x) (caller x) (mux x) true (closeErr x) (hctx x).
 Definition set_cerr (x : thread) (b : bool) : thread :=
-  mkTh (status x) (caller x) (mux x) (closed x) b.
+  mkTh (status x) (caller x) (mux x) (closed x) b (hctx x).
+(* end detaches the caller and remembers it (and the pending message) for the handler phase *)
+Definition set_h (x : thread) (h : option (nat * msg)) : thread :=
+  mkTh (status x) None (mux x) (closed x) (closeErr x) h.
+(* the handler phase is over *)
+Definition clr_h (x : thread) : thread :=
+  mkTh (status x) (caller x) (mux x) (closed x) (closeErr x) None.
 
 Definition setpc (s : state) (g : nat) (p : pcT) : state := mkState (n s) (th s) (upd (pc s) g p).
 Definition setth (s : state) (t : nat) (x : thread) : state := mkState (n s) (upd (th s) t x) (pc s).
@@ -112,18 +123,41 @@ Definition after_recv (c : nat) (m : msg) : pcT :=
   | _ => Lua
   end.
 
+(* g is in the handler phase of an end whose thread was killed: no Lua code runs (truncate(0)) *)
+Definition in_hterm (s : state) (g : nat) : bool :=
+  match hctx (th s g) with Some (_, m) => is_term m | None => false end.
+
 Definition step (cf : cfg) (s : state) (a : action) : option state :=
   let g := who a in
   if negb (g <? n s) then None else
   match pc s g, lab a with
   (* ---- Lua code decides *)
   | Lua, LCreate =>
+      if in_hterm s g then None else
       Some (mkState (S (n s)) (upd (th s) (n s) thNew) (upd (pc s) (n s) S0))
-  | Lua, LResume t v => if t <? n s then Some (setpc s g (R1 Res t v)) else None
-  | Lua, LClose t => if t <? n s then Some (setpc s g (R1 Cls t 0)) else None
-  | Lua, LYield v => Some (setpc s g (Y1 v))
-  | Lua, LFinish m => Some (setpc s g (if Nat.eqb g 0 then MainDone else E0 m))
-  | Lua, LStatus t => if t <? n s then Some s else None
+  | Lua, LResume t v => if negb (in_hterm s g) && (t <? n s) then Some (setpc s g (R1 Res t v)) else None
+  | Lua, LClose t => if negb (in_hterm s g) && (t <? n s) then Some (setpc s g (R1 Cls t 0)) else None
+  | Lua, LYield v => if in_hterm s g then None else Some (setpc s g (Y1 v))
+  | Lua, LFinish m =>
+      match hctx (th s g) with
+      | None => Some (setpc s g (if Nat.eqb g 0 then MainDone else E0 m))
+      | Some _ => None
+      end
+  | Lua, LStatus t => if negb (in_hterm s g) && (t <? n s) then Some s else None
+  (* the handler phase of end is over (handlers returned, raised an error, or exhausted the quota:
+     m = MTerm): continue with the locked section *)
+  | Lua, LHDone m =>
+      match hctx (th s g) with
+      | Some (c, m0) => if is_term m0 && negb (is_term m) then None
+                        else Some (setpc (setth s g (clr_h (th s g))) g (E1 c m))
+      | None => None
+      end
+  (* a termination received from a callee while running handlers unwinds to end's recover *)
+  | E0 _, LHDone m =>
+      match hctx (th s g) with
+      | Some (c, _) => if is_term m then Some (setpc (setth s g (clr_h (th s g))) g (E1 c MTerm)) else None
+      | None => None
+      end
   (* ---- Resume / Close *)
   | R1 k t v, LStep cd => if negb (cd =? 1) then None else lock s g t (R2 k t v)
   | R2 k t v, LStep cd => if negb (cd =? 2) then None else
@@ -165,22 +199,28 @@ Definition step (cf : cfg) (s : state) (a : action) : option state :=
       end
   (* ---- end *)
   | E0 m, LStep cd => if negb (cd =? 20) then None else
-      match caller (th s g) with
-      | None => Some (setpc s g Panicked)
-      | Some c => Some (setpc s g (E1 c m))
+      match hctx (th s g) with
+      | Some _ => None
+      | None =>
+        match caller (th s g) with
+        | None => Some (setpc s g Panicked)
+        | Some c =>
+          if handlers_locked cf then Some (setpc s g (E1 c m))
+          else Some (setpc (setth s g (set_h (th s g) (Some (c, m)))) g Lua)
+        end
       end
   | E1 c m, LStep cd => if negb (cd =? 21) then None else lock s g g (E2 c m)
   | E2 c m, LStep cd => if negb (cd =? 22) then None else
       if st_eqb (status (th s g)) OK && st_eqb (status (th s c)) OK then lock s g c (E3 c m)
       else if is_free s c then Some (setpc s g Panicked) else None
   | E3 c m, LStep cd => if negb (cd =? 23) then None else Some (setpc (setth s g (set_closed (th s g))) g (E4 c m))
-  | E4 c m, LStep cd => if negb (cd =? 24) then None else Some (setpc (setth s g (set_sc (th s g) Dead None)) g (E5 c m))
+  | E4 c m, LStep cd => if negb (cd =? 24) then None else Some (setpc (setth s g (set_sc (th s g) Dead None)) g (if handlers_locked cf then E5 c m else E6 c m))
   | E5 c m, LStep cd => if negb (cd =? 25) then None else Some (setpc s g (E6 c m))
   (* since fix 8db1ed8 a thread killed by a context termination (m = MTerm) discards its pending
      handlers (closeStack.truncate(0)) instead of running them: no Lua code runs in E5 then *)
   | E5 c m, LHResume t =>
-      if e5_coops cf && negb (is_term m) && (t <? n s) then Some (setpc s g (X1 t c m)) else None
-  | E5 c m, LHYield => if e5_coops cf && negb (is_term m) then Some (setpc s g (XY1 c m)) else None
+      if handlers_locked cf && negb (is_term m) && (t <? n s) then Some (setpc s g (X1 t c m)) else None
+  | E5 c m, LHYield => if handlers_locked cf && negb (is_term m) then Some (setpc s g (XY1 c m)) else None
   | X1 t c m, LStep cd => if negb (cd =? 41) then None else lock s g t (X2 t c m)
   | X2 t c m, LStep cd => if negb (cd =? 42) then None else
       if st_eqb (status (th s t)) Suspended then Some (setpc s g (X3 t c m))
@@ -245,12 +285,13 @@ Definition accessing (p : pcT) : bool :=
 (* the actions a goroutine may attempt at its pc (finite for a given payload choice) *)
 Definition offers (cf : cfg) (s : state) (g : nat) : list label :=
   match pc s g with
-  | Lua => [LCreate; LYield 0; LFinish (MVal 0); LStatus 0]
+  | Lua => [LCreate; LFinish (MVal 0); LHDone MTerm]
+  | E0 _ => [LStep 20; LHDone MTerm]
   | R1 _ _ _ => [LStep 1] | R2 _ _ _ => [LStep 2] | R3 _ _ _ => [LStep 3] | R4 _ _ _ => [LStep 4]
   | R5 _ _ _ => [LStep 5] | R6 _ _ _ => [LStep 6] | R7 _ _ _ => [LRdv]
   | Y1 _ => [LStep 11] | Y2 _ => [LStep 12] | Y3 _ _ => [LStep 13] | Y4 _ _ => [LStep 14]
   | Y5 _ _ => [LStep 15] | Y6 _ _ => [LStep 16] | Y7 _ _ => [LRdv]
-  | E0 _ => [LStep 20] | E1 _ _ => [LStep 21] | E2 _ _ => [LStep 22] | E3 _ _ => [LStep 23]
+  | E1 _ _ => [LStep 21] | E2 _ _ => [LStep 22] | E3 _ _ => [LStep 23]
   | E4 _ _ => [LStep 24] | E5 _ _ => [LStep 25] | E6 _ _ => [LStep 26] | E6r _ _ => [LStep 27]
   | E7 _ _ => [LRdv] | E8 _ => [LStep 28] | E9 _ => [LStep 29] | E10 => [LStep 30]
   | X1 _ _ _ => [LStep 41] | X2 _ _ _ => [LStep 42] | X3 _ _ _ => [LStep 43] | XY1 _ _ => [LStep 44]
